@@ -1,6 +1,8 @@
 #!/bin/sh
 # run every quick check on the current tree; non-zero exit if any reports a violation
 cd "$(dirname "$0")/.." || exit 2
+# inside `vp run --with-repo` the checks must read the repository snapshot, not /repo (which may carry a seeded change)
+[ -n "$VP_RUN_REPO" ] && export VERIF_REPO="$VP_RUN_REPO"
 rc=0
 for p in C01 C02 C03 C04 C05 C06 C07 C08 C09 C10 C11 C12 C13 C14 C15 C16 C17 C18 C19 C20; do
   out=$(./check $p ${1:-quick} 2>&1); r=$?
